@@ -195,6 +195,17 @@ more6 = {
 }
 for k, v in more6.items():
     more[k] = more.get(k, "") + v
+more7 = {
+ "C08": " Round 7: every stream is also read by a consumer that takes exactly the declared number of bytes and closes without seeing the end of the stream (a success of Close must be as sound as after a complete read).",
+ "C09": " Round 7: a body of a little more than 64 KiB.",
+ "C13": " Round 7: the TNC is gone right behind its k-th frame to the host (k = 1..8), with the application's clean-up call.",
+ "C14": " Round 7: the TNC-gone scenarios end with the application's clean-up call tnc.Close().",
+ "C16": " Round 7: callback mode 3 (a non-empty string together with an error).",
+ "C18": " Round 7: the token %.",
+ "C20": " Round 7: reports without a latitude and/or a longitude, with every combination of the other optional fields.",
+}
+for k, v in more7.items():
+    more[k] = more.get(k, "") + v
 for k, v in more.items():
     checks[k]["level_claimed"]["text"] += v
 for k, v in notes.items():
